@@ -714,8 +714,12 @@ def eval_sim(desc, ctx, d):
              ("v2empty", "v2e.yaml", 0, True, emit_yaml(tree_v2(S, True, empty_sections=True), rng)),
              ("v2omit", "v2o.yaml", 2, True, emit_yaml(tree_v2(S, True), rng)),
              ("v2null", "v2n.yaml", 0, True, emit_yaml(nulled(tree_v2(S, True, empty_sections=True)), rng))]
+    # the TOML file as many write it: every time (native date / date-time in the other files) as a quoted string
+    S_q = dict(S, **{k: (S[k]["$dt"] if isinstance(S[k], dict) else S[k]) for k in ("start", "stop", "reference")})
+    files.append(("v2tomlq", "v2q.toml", 2, o_toml, emit_toml(tree_v2(S_q, o_toml), rng)))
     ints, obs_all, norm_all, notes = [], {}, {}, []
     for name, fname, kind, omit, text in files:
+        S = S_q if name == "v2tomlq" else desc["S"]
         Path(fname).write_text(text, encoding="utf-8")
         parsed = parse_file(fname)
         obs, note = call_configure(fname)
@@ -739,6 +743,13 @@ def eval_sim(desc, ctx, d):
                     oracle = (f"(a) v1 and {name} give different module arguments: "
                               f"{diff(ref and ref[1], norm_all[name] and norm_all[name][1])}")
                     break
+    S = desc["S"]
+    if ok_wf and oracle is None:
+        if obs_all["v2tomlq"][0] != "ok":
+            oracle = f"TOML spelling with the times as quoted strings refused: {obs_all['v2tomlq']} {notes}"
+        elif norm_all["v2tomlq"] is None or times_canon(norm_all["v2tomlq"][1]) != times_canon(norm_all["v1"][1]):
+            oracle = (f"(a) v1 and the TOML file with quoted times give different module arguments: "
+                      f"{diff(times_canon(norm_all['v1'][1]), norm_all['v2tomlq'] and times_canon(norm_all['v2tomlq'][1]))}")
     # (c) omitted optional sections == empty sections; omitted grid = forcing module + first sorted file
     if oracle is None and obs_all["v2omit"][0] == "ok":
         if obs_all["v2empty"][0] != "ok" or not same_dict(obs_all["v2empty"][1], obs_all["v2omit"][1]):
@@ -756,7 +767,7 @@ def eval_sim(desc, ctx, d):
     ran = False
     if oracle is None and ok_wf and desc.get("run"):
         outs = {}
-        spell = [("v1", "v1.yaml"), ("v2yaml", "v2.yaml"), ("v2toml", "v2.toml")]
+        spell = [("v1", "v1.yaml"), ("v2yaml", "v2.yaml"), ("v2toml", "v2.toml"), ("v2toml with quoted times", "v2q.toml")]
         if obs_all["v2omit"][0] == "ok" and Path("v2o.yaml").exists():
             spell.append(("v2omit", "v2o.yaml"))  # optional sections (the grid section among them) left out
         if S["grid_file"] is None and expansion:
@@ -780,6 +791,21 @@ def eval_sim(desc, ctx, d):
             "nontrivial": json.dumps(S, sort_keys=True) if (accepted and ok_wf) else None,
             "kind": ("sim-run" if ran else "sim") + ("" if ok_wf else "-outside-hypotheses"),
             "observed": {"wf": ok_wf, "v1": short(obs_all["v1"]), "v2yaml": short(obs_all["v2yaml"]), "ran": ran, "notes": notes}}
+
+
+def times_canon(norm):
+    """module arguments with the clock's times as instants (a native date, a date-time and their quoted spellings
+    denote the same instant)"""
+    out = copy.deepcopy(norm)
+    t = out.get("time") if isinstance(out, dict) else None
+    if isinstance(t, dict):
+        for k in ("start", "stop", "reference"):
+            if isinstance(t.get(k), str):
+                try:
+                    t[k] = str(np.datetime64(t[k], "s"))
+                except ValueError:
+                    pass
+    return out
 
 
 def nulled(tree):
@@ -871,8 +897,9 @@ def gen_outvar(rng, name, run=False):
 def tval(rng, seconds, date_ok=False):
     iso = rf.iso(seconds)
     r = rng.random()
-    if date_ok and seconds % 86400 == 0 and r < 0.4:
-        return {"$dt": iso[:10]}
+    if date_ok and seconds % 86400 == 0 and r < 0.6:
+        # a date without a time of day: native (YAML date, TOML local date) or as a quoted string
+        return {"$dt": iso[:10]} if r < 0.35 else iso[:10]
     if r < 0.5:
         return {"$dt": iso}
     return iso if r < 0.85 else iso.replace("T", " ")
